@@ -18,6 +18,7 @@ import (
 	"fmt"
 	"sort"
 	"strings"
+	"sync/atomic"
 	"time"
 
 	"go.temporal.io/server/api/adminservice/v1"
@@ -25,6 +26,8 @@ import (
 	replicationv1 "go.temporal.io/server/api/replication/v1"
 	"go.temporal.io/server/client/history"
 	servercommon "go.temporal.io/server/common"
+	"go.temporal.io/server/common/log"
+	"go.temporal.io/server/common/log/tag"
 	"google.golang.org/grpc/codes"
 	"google.golang.org/grpc/status"
 	"google.golang.org/protobuf/proto"
@@ -287,8 +290,38 @@ func rwPool(nt int) [][][2]string {
 	}
 }
 
+// vfLogHook, when set, is called with the message of every log statement of the shard manager (unthrottled). The
+// harness uses selected statements as schedule points: the logging goroutine can be parked there.
+var vfLogHook atomic.Pointer[func(msg string)]
+
+type vfHookLogger struct{}
+
+func (vfHookLogger) hit(msg string) {
+	if h := vfLogHook.Load(); h != nil {
+		(*h)(msg)
+	}
+}
+func (l vfHookLogger) Debug(msg string, _ ...tag.Tag)  { l.hit(msg) }
+func (l vfHookLogger) Info(msg string, _ ...tag.Tag)   { l.hit(msg) }
+func (l vfHookLogger) Warn(msg string, _ ...tag.Tag)   { l.hit(msg) }
+func (l vfHookLogger) Error(msg string, _ ...tag.Tag)  { l.hit(msg) }
+func (l vfHookLogger) DPanic(msg string, _ ...tag.Tag) { l.hit(msg) }
+func (l vfHookLogger) Panic(msg string, _ ...tag.Tag)  { l.hit(msg) }
+func (l vfHookLogger) Fatal(msg string, _ ...tag.Tag)  { l.hit(msg) }
+
+// vfHookProvider hands the hook logger to the shard manager and a no-op logger to everything else.
+type vfHookProvider struct{}
+
+func (vfHookProvider) Get(c logging.LogComponentName) log.Logger {
+	if c == logging.ShardManager {
+		return vfHookLogger{}
+	}
+	return vfNoop()
+}
+func (p vfHookProvider) With(...tag.Tag) logging.LoggerProvider { return p }
+
 func newRWWorld(c rwCase) *rwWorld {
-	lp := logging.NewLoggerProvider(vfNoop(), config.NewMockConfigProvider(config.S2SProxyConfig{}))
+	var lp logging.LoggerProvider = vfHookProvider{}
 	scc := config.ShardCountConfig{Mode: config.ShardCountRouting, LocalShardCount: int32(c.NS), RemoteShardCount: int32(c.NT)}
 	sm := NewShardManager(nil, scc, encryption.TLSConfig{}, lp).(*shardManagerImpl)
 	ctx, cancel := context.WithCancel(context.Background())
